@@ -80,7 +80,7 @@ def gen_specs(rng, thorough):
             if thorough or rng.chance(1, 3) or d2 == "Shaped":
                 out.append(("nested2", spec(d2, made(d1, rng.choice([A, ANY]), rng.choice(INNER_DIMS)), rng.choice(["b", "", "#q", "3"]))))
     # three levels
-    for _ in range(1500 if thorough else 200):
+    for _ in range(6000 if thorough else 200):
         d1, d2, d3 = rng.choice(cats), rng.choice(cats), rng.choice(["Shaped", rng.choice(cats)])
         out.append(("nested3", spec(d3, made(d2, made(d1, A, rng.choice(INNER_DIMS)), rng.choice(["b", ""])), rng.choice(["c", "", "_"]))))
     # unions
